@@ -1127,6 +1127,10 @@ class Event(Boolean):
 
     @instance_descriptor
     def __set__(self, obj, val):
+        if self._mode in ['set-reset', 'set']:
+            # A value that is going to be rejected must leave the event as
+            # it is (it may be True while its watchers are being called)
+            self._validate(val)
         try:
             if self._mode in ['set-reset', 'set']:
                 super().__set__(obj, val)
